@@ -298,6 +298,9 @@ class DirectCollocation(SamplingMethod):
                 if value.is_column() and var.is_scalar(): value = value.T
                 for k in list(range(self.N))+[-1]:
                     target = self.eval_at_control(stage, var, k)
+                    if k==-1 and self.N>0 and ca.is_equal(target, self.eval_at_control(stage, var, self.N-1)):
+                        # per-interval quantity (control, ...): the final node has no entry of its own
+                        continue
                     value_k = value
                     if target.numel()*(self.N)==value.numel() or target.numel()*(self.N+1)==value.numel():
                         value_k = value[:,k]
